@@ -96,6 +96,35 @@ def replay_known(run):
     return live
 
 
+def replay_closed(run, repaired_flags):
+    """A finding that is not OPEN suppresses nothing: its witnesses are replayed on every run and a witness
+    that fails again (the defect returned) is a VIOLATION with that witness as the failing input.  The same
+    holds when T1 recognises the DEFECTIVE body of a method (model flag false) without an open finding."""
+    open_ids = {k["id"] for k in vlib.load_known_findings("C24")}
+    n = 0
+    for fid, ws in WITNESSES.items():
+        if fid in open_ids:
+            continue
+        failed = False
+        for w in ws:
+            c = H.run_case(0, 12345, 0, build=w)
+            if c.real_call.kind != "num" and c.expected.kind == "num" or \
+                    (c.real_call.kind == "num" and c.expected.kind == "num"
+                     and not H.same_number(c.real_call.value, c.expected.value, c.scale, rel=1e-8)):
+                failed = True
+                rep = H.describe(c)
+                rep.update({"what": f"the repaired finding '{fid}' is back: its witness fails again on this tree",
+                            "finding": fid, "witness_builder": w.__name__,
+                            "reproduce": "bin/check C24 (witness replay; the expression_repr with the given mapping)"})
+                run.violation(rep, True)
+                n += 1
+        if fid in repaired_flags and repaired_flags[fid] is False and not failed:
+            run.violation({"broken": f"T1 recognises the defective body for finding '{fid}' (no open finding covers "
+                                     f"it) but its witnesses evaluate correctly"}, False)
+            n += 1
+    return n
+
+
 # -------------------------------------------------------------------------------------------------
 
 def classify(c, live):
@@ -150,7 +179,8 @@ def enumeration():
     global _ENUM
     if _ENUM is None:
         _ENUM = [H.tie_builder(n) for n in range(H.N_TIE)] + [H.scope_builder(n) for n in range(H.N_SCOPE)] + \
-                [H.compound_builder(k, comp) for k, comp in H.compound_cases(100)]
+                [H.compound_builder(k, comp) for k, comp in H.compound_cases(100)] + \
+                [H.eps_builder(n) for n in range(H.N_EPS)]
     return _ENUM
 
 
@@ -214,6 +244,14 @@ def main(run):
     flags = ("true" if "conditional-component" in repaired else "false") + " " + \
             ("true" if "permutation-symbol-object" in repaired else "false")
     run.extra["model_flags_cfix_efix"] = flags
+    # defective (pinned) body recognised -> flag False; repaired -> True; anything else -> T1 reports it
+    body_flags = {}
+    for fid, meth in (("conditional-component", "Conditional.evaluate"),
+                      ("permutation-symbol-object", "PermutationSymbol.evaluate")):
+        if meth in fixed_forms:
+            body_flags[fid] = True
+        elif customs.get(meth) == C24_expected.EXPECTED.get(meth):
+            body_flags[fid] = False
     for name in C24_expected.EXPECTED:
         if name not in customs:
             changed.append(name)
@@ -234,6 +272,8 @@ def main(run):
 
     # ---- known findings
     live = replay_known(run)
+    n_regressions = replay_closed(run, body_flags)
+    run.extra["closed_finding_witnesses_failing"] = n_regressions
 
     # ---- T3 differential
     n_cases = len(enumeration()) + (600 if quick else 6000)
